@@ -51,7 +51,7 @@ def definitions(ev, e1def):
     w, sc, rf, un = e1def
     if un == 'CCITT IA5':
         w = max(8, (w // 8) * 8)
-    if ev == 'dA':
+    if ev in ('dA', 'dAf'):
         return ([('243', 'GFSCLS1  TABLE A ENTRY - GFSMODE', 'L MESSAGES')],
                 [(E1, 'FIRST NEW ELEMENT', un, sc, rf, w), (E2, 'SECOND NEW ELEMENT (CHARACTERS)', 'CCITT IA5', 0, 0, 24)],
                 [(S1, 'FIRST NEW SEQUENCE', [E1, E2])])
@@ -84,6 +84,8 @@ E5 = 49193
 # data messages that select local tables (centre, sub-centre, local version) or none
 DATA_LOCAL = {'xL1': ([E5, 1001], (98, 0, 1)), 'xL101': ([1001, E5], (98, 0, 101)), 'xL0': ([E5, 1001], None)}
 LOCAL_EVENTS = ['dL', 'dA', 'xL1', 'xL101', 'xL0', 'xA']
+# other layouts: the Table A part as a fixed replication; a category-11 message that is not a definition message at all
+LAYOUT_EVENTS = ['dAf', 'dA', 'dB', 'xF', 'xA', 'xB', 'xS']
 DATA = {'xA': [S1, E1], 'xB': [S2, S3, E3], 'xS': [1001, 5002, 301001], 'xM': [1001, E1, S1, 5002], 'xN': [SN, E4, 1001, SN2, E1]}
 
 
@@ -96,10 +98,22 @@ def build_stream(hist, e1def):
             for a, b, d in definition_parts(ev, e1def):
                 if ev == 'd0':
                     m = ncep.build_definition(a, b, d, nsub=0)
+                elif ev == 'dAf':
+                    m = ncep.build_definition(a, b, d, fixed_a=True)
+                    defs.append((b, d))
                 else:
                     m = ncep.build_definition(a, b, d)
                     defs.append((b, d))
                 items.append((ev, m, 'def'))
+            continue
+        if ev == 'xF':
+            # a message of data category 11 with a subset that is NOT in the definition layout (ordinary descriptors): nothing
+            # can be taken from it; it may be delivered or refused, the messages around it must not suffer
+            B0, D0 = tables.load(13)
+            buf0, subs0, notes0, nb0 = codec.encode(B0, D0, [1001, 1002], 1, False, lambda info: 5)
+            spec0 = ncep.data_spec([1001, 1002], master_version=13)
+            spec0.meta['data_category'] = 11
+            items.append((ev, message.build(spec0, buf0)[0], ('maybe',)))
             continue
         local = None
         if ev in DATA_LOCAL:
@@ -204,6 +218,10 @@ def judge(hist, e1def, filtered=False):
             if hit:
                 return outcome, ('filtered-out-delivered|%s' % ev, 'stream %r: definition message %d was delivered although the '
                                  'filter %r rejects it' % (list(hist), k, FILTER_NO_DEFS))
+            continue
+        if exp == ('maybe',):
+            if hit:
+                gi += 1
             continue
         if exp == ('unknown',):
             if hit:
@@ -393,6 +411,13 @@ def main(tier, seed):
     p = merge_all(run_shards(run_hists, [(s, 0) for s in split(lh, 64)]))
     rep.add_part('histories-local-tables', p, bounds={'events': LOCAL_EVENTS, 'max_length': ml, 'histories': len(lh),
                                                       'local_tables': ['98_0/1', '98_0/101', 'none'], 'colliding_id': E5})
+    lh2 = [h for L in range(1, ml + 1) for h in itertools.product(LAYOUT_EVENTS, repeat=L) if any(e[0] == 'x' for e in h)
+           and any(e in ('dAf', 'xF') for e in h)]
+    p = merge_all(run_shards(run_hists, [(s, 0) for s in split(lh2, 64)]))
+    rep.add_part('histories-layouts', p, bounds={'events': LAYOUT_EVENTS, 'max_length': ml, 'histories': len(lh2)},
+                 rule='definition messages whose Table A part is a fixed replication define like the delayed form; a category-11 '
+                      'message that is not in the definition layout must not disturb the scan (no exception other than the library '
+                      'error, the other messages delivered)')
     p = run_prepbufr(None)
     p.n['nodes'], p.n['edges'] = p.n['exec'] + 1, p.n['exec']
     rep.add_part('prepbufr', p, bounds={'file': 'tests/data/prepbufr.bufr'})
